@@ -295,6 +295,19 @@ def nlargest (frame : List Name) (columns : Option (List Name)) (p : Parent) (de
   | none => plain frame p deps
   | some cs => keyed frame cs p deps
 
+/-- `RollingReduction._simplify_up`; `gb` = `groupby_kwargs["by"]` column names when the rolling is grouped.
+    Without grouping the parent projection is NOT re-applied and one column collapses to a scalar selection. -/
+def rolling (frame : List Name) (gb : Option (List Name)) (p : Parent) (deps : List Dep) : Option Rw :=
+  let sel := detProj p deps (match gb with | some b => b | none => [])
+  let columns := frame.filter sel.has
+  if columns = frame then none
+  else match gb with
+    | some _ => some { childs := [some (.many columns)], keep := true }
+    | none =>
+      match columns with
+      | [c] => some { childs := [some (.one c)], keep := false }
+      | _ => some { childs := [some (.many columns)], keep := false }
+
 /-! #### Merge -/
 
 structure MergeP where
